@@ -66,6 +66,7 @@ MENU = [
     E(P('beta'), fmt=['seealso', 'alpha']),                               # 18
     E(P('Gamma', sort='gamma', src='\\emph{Gamma}', mark='emph')),           # 19 same sort key and text as 5, other markup
     E(P('_zeta')),                                                        # 20 second entry of the underscore group
+    E(P('M\u00fcller', src='M\\"uller')),                                 # 21 accent macro whose name is the quote character
 ]
 DESIGN_MENU = tuple(range(14))
 FULL_MENU = tuple(range(len(MENU)))
